@@ -111,8 +111,8 @@ def thread_states(threads=None):
             continue
         f = frames.get(t.ident)
         st = []
-        while f is not None and len(st) < 12:
-            st.append((f.f_code.co_filename.rsplit("/", 1)[-1], f.f_code.co_name, f.f_lineno))
+        while f is not None and len(st) < 80:
+            st.append((f.f_code.co_filename.rsplit("/", 1)[-1], f.f_code.co_name, f.f_lineno, f.f_code.co_filename))
             f = f.f_back
         out[t.name] = st
     return out
@@ -124,3 +124,14 @@ def parked_forever(stack_frames):
         return False
     top = stack_frames[0]
     return (top[0], top[1]) in _BLOCKING
+
+
+def blocked_on_lock(stack_frames):
+    """Innermost Python frame sits on a source line that acquires a lock (C-level Lock/RLock.acquire has no frame)."""
+    import linecache
+    if not stack_frames:
+        return False
+    fn, func, line = stack_frames[0][:3]
+    full = stack_frames[0][3] if len(stack_frames[0]) > 3 else None
+    src = linecache.getline(full, line) if full else ""
+    return ("acquire(" in src) or ("with " in src and "lock" in src.lower())
